@@ -60,6 +60,12 @@ def key_of(row, off=0):
         return "%s%s:%s" % (row.get("scheme"), op[0].upper() + op[1:], cls)
     if op == "onA":
         return "ecpIsOnA:%s" % cls
+    if op == "safeGroup":
+        thr = row.get("thr", [])
+        t = thr[off] if 0 <= off < len(thr) else off
+        k = row.get("k", 0)
+        rel = ("threshold=k" if t == k else "threshold=k-1" if t == k - 1 else "threshold>k" if t > k else "threshold<k") if k else "threshold=%s" % t
+        return "ecpIsSafeGroup:%s:%s" % (cls.split(":")[0] if k else cls, rel)
     if op == "smooth" and row.get("hang") and G.le(row.get("a", [0])) == 0:
         return "priIsSmooth:a=0:hang"
     if op == "nextPrime" and len(row.get("a", [])) > 8 and row.get("base", 0) > 0 and G.le(row.get("a", [0])) < 10000:
@@ -117,7 +123,9 @@ class Judge:
         ctx = self.ctx
         flip = []
         for i, row, (cnt, off) in bads:
-            if row["op"] in ("pval", "isPrime", "sgPrime"):
+            if row["op"] == "safeGroup" and off in (900, 901):
+                ctx.note_inconclusive("%s: crafted (p, q) pair not accepted by TLC (code %d, generator fault): %s" % (what, off, json.dumps(brief(row))[:300]))
+            elif row["op"] in ("pval", "isPrime", "sgPrime"):
                 f = dict(row)
                 if "rc" in f:
                     f["rc"] = 0 if f["rc"] else 1
@@ -328,6 +336,7 @@ def run(ctx):
     cmds += G.prime_cmds(rng, tier)
     cmds += G.poly_cmds(rng, tier, bels_std)
     cmds += G.tiny_curve_cmds(rng, tier)
+    cmds += G.safe_group_cmds(rng, tier)
     rows2 = run_exec(ctx, drv, cmds, "exec")
     # expand accepted standard sets into one line per condition
     lines = []
@@ -359,6 +368,7 @@ def run(ctx):
     ev.cov["param_lines_reject"] = sum(1 for x in lines if x.get("op") == "pval" and x.get("expect") == "fail")
     ev.cov["param_lines_accept_conditions"] = sum(1 for x in lines if x.get("op") == "pval" and x.get("expect") == "hold")
     ev.cov["key_lines"] = sum(1 for x in lines if x.get("op") in ("pubkeyVal", "keypairVal"))
+    ev.cov["safe_group_calls"] = sum(len(x.get("res", [])) for x in lines if x.get("op") == "safeGroup")
     ev.cov["tiny_curve_points"] = sum(len(x.get("res", [])) for x in lines if x.get("op") == "onA")
     ev.cov["seed_lines"] = sum(1 for x in lines if "Seed" in x.get("op", ""))
     ev.cov["number_lines"] = sum(1 for x in lines if x.get("op") in ("isPrime", "sgPrime", "nextPrime", "sieved", "smooth"))
